@@ -27,7 +27,7 @@ Definition C17_full_statement : Prop :=
     /\ Forall (eq (full_name e)) (topic_entities cs)
     (* the schemas file holds Keys, Data, State, EventType, Event with the documented shapes *)
     /\ (exists fl, msgs_of_file 0 cs =
-          [keys_msg e; data_msg e; state_msg e fl; event_type_msg e; event_msg e] ++ map schema_msg (e_schemas e)).
+          [keys_msg e; data_msg e; state_msg e fl; event_type_msg e; event_msg e] ++ flat_map schema_msgs (e_schemas e)).
 
 Theorem C17_full : C17_full_statement.
 Proof.
@@ -112,7 +112,7 @@ Print Assumptions C17_same_annotation.
 Theorem C17_main_file : forall e fl,
   msgs_of_file 0 (expand_with e fl) =
     [keys_msg e; data_msg e; state_msg e fl; event_type_msg e; event_msg e]
-    ++ map schema_msg (e_schemas e).
+    ++ flat_map schema_msgs (e_schemas e).
 Proof. exact main_file_messages. Qed.
 Print Assumptions C17_main_file.
 
@@ -286,6 +286,16 @@ Theorem C17_client_groups_any_order : forall e fl objs,
 Proof. exact client_groups_any_order. Qed.
 Print Assumptions C17_client_groups_any_order.
 
+(* several entities in one package (distinct entity names, no clash between message names):
+   the client shows one state entity per declaration, each the declared one, in order *)
+Theorem C17_client_groups_file : forall pkg (l : list (entity * list bytes)),
+  (forall p, In p l -> e_pkg (fst p) = pkg) ->
+  NoDup (map (fun p => snake_name (fst p)) l) ->
+  NoDup (map m_name (main_messages (file_components l))) ->
+  client_of pkg (file_components l) = Some (map (fun p => grouping_view (fst p)) l).
+Proof. exact client_groups_file. Qed.
+Print Assumptions C17_client_groups_file.
+
 (* the defect repaired by fix 2072988: with the pre-fix inference of findPSMOptions an object
    embedding the keys is a second KEYS candidate; for one visiting order the reported primary
    key is the declared one, for another it is empty *)
@@ -323,9 +333,12 @@ Print Assumptions C17_names_upper_camel.
 (* the tie: entity.go still defines State/EventType/Event through componentName and
    applies no strcase function to a concatenation; Strcase.v models the pinned version *)
 Theorem C17_code_tables :
-  model_run_order = EntityGen.run_order /\ model_suffix_sites = EntityGen.suffix_sites
-  /\ EntityGen.camel_of_concat_sites = 0 /\ model_strcase_calls = EntityGen.strcase_calls
-  /\ model_formats = EntityGen.sprintf_formats /\ model_property_names = EntityGen.property_names
+  model_run_order = EntityGen.run_order
+  /\ same_pairs model_suffix_sites EntityGen.suffix_sites = true
+  /\ EntityGen.camel_of_concat_sites = 0
+  /\ same_pairs model_strcase_calls EntityGen.strcase_calls = true
+  /\ same_pairs model_formats EntityGen.sprintf_formats = true
+  /\ same_pairs model_property_names EntityGen.property_names = true
   /\ EntityGen.entity_name_function = "ToSnake"%string
   /\ EntityGen.strcase_version = "v0.3.0"%string /\ EntityGen.configure_acronym_occurrences = 0.
 Proof.
@@ -372,10 +385,12 @@ Definition C17_sample : entity :=
                       mkM (bs "Download") 1 (bs "dl") [] None]]
       [mkS [] [mkU (bs "name") (KScalar 9 (bs "string")) false false]]
       (Some (mkQ true [bs "ACTIVE"]))
-      [(bs "Address", [mkU (bs "street") (KScalar 9 (bs "string")) false false])].
+      [SObject (bs "Address") [mkU (bs "street") (KScalar 9 (bs "string")) false false];
+       SEnum (bs "Kind") [bs "A"; bs "B"];
+       SOneof (bs "Choice") [mkU (bs "a") (KScalar 9 (bs "string")) false false]].
 
 Example C17_example :
-  (exists cs, compile C17_sample = Ok cs /\ length cs = 22%nat)
+  (exists cs, compile C17_sample = Ok cs /\ length cs = 24%nat)
   /\ nth 0 (query_paths C17_sample) [] = bs "/foo/v1/foo_s/q/{foo_id}/{account_id}"
   /\ nth 2 (query_paths C17_sample) [] = bs "/foo/v1/foo_s/q/{foo_id}/{account_id}/events"
   /\ status_values (status_prefix C17_sample) (e_status C17_sample)
